@@ -8,7 +8,7 @@ import argparse, threading, glob, hashlib, json, os, re, shutil, subprocess, sys
 from concurrent.futures import ThreadPoolExecutor
 
 VERIF = os.path.abspath(os.path.join(os.path.dirname(os.path.abspath(__file__)), ".."))
-REPO = os.environ.get("ARK_REPO", "/repo")
+REPO = os.environ.get("ARK_REPO") or os.environ.get("VP_RUN_REPO") or "/repo"   # (vp run --with-repo: the run's own snapshot)
 SPEC = os.path.join(VERIF, "spec")
 HARNESS = os.path.join(VERIF, "harness")
 WORKROOT = os.path.join(VERIF, ".work")
